@@ -34,9 +34,11 @@ claim('C18', 'verus',
       'Clause decided: every bytecode function reads back as the instruction sequence it was written as, for all operand widths and jump distances. '
       'All 70 public BytecodeWriter emit methods, the label/forward-jump machinery and the reader (varint/fixed primitives, read_arguments, the 70-arm read_instruction, '
       'both opcode conversions) carry Verus contracts against one table-driven wire format; the round trip for one instruction, for sequences and for patched forward jumps are lemmas over those contracts, '
-      'with no bound on operand values, buffer sizes or sequence length. Failed obligations are reported with a concrete failing instruction sequence found on the real crate by the replay runner, or no-failing-input-found.',
+      'with no bound on operand values, buffer sizes or sequence length. The visitor interface the compilers consume (Iterator::next, BytecodeFullIteration::read, the 70-arm dispatch_instruction) is under contract in a second unit: '
+      'a recording visitor generated from the trait/enum declarations receives exactly the decoded instruction sequence, one visit_instruction(start) before each callback. '
+      'Failed obligations are reported with a concrete failing instruction sequence found on the real crate by the replay runner, or no-failing-input-found.',
       'Trusted: Verus/Z3, vstd, rewrites N1-N8 (DESIGN.md 3.2), assumed items in evidence.trusted_base (emit_location frame, usize->u32 try_into, mem::replace, opaque const-pool entry constructors). '
-      'NOT proved, executed by replay runners on the real crates (sampled): the visitor interface (read/dispatch_instruction) and the package clause (decode(encode(p)) == p, same bytes again, truncated / trailing / corrupted files refused without a crash) '
+      'NOT proved, executed by replay runners on the real crates (sampled): jump tables, the wire.rs type encoding and the package clause (decode(encode(p)) == p, same bytes again, truncated / trailing / corrupted files refused without a crash) '
       'on programs the real front end emits; one genuine crash was repaired (fix: commit), the missing integrity check is an open known finding. Not decided: build-via-package equality, Dora-side readers, jump tables.',
       'DESIGN.md §4 C18')
 
